@@ -44,8 +44,9 @@ PROPS["C09"] = dict(
                       "string_pairs_sharing_prefix": 10, "seq_pairs_cross_kind": 10,
                       "seq_pairs_different_length": 10, "tree_pairs": 10, "boundary_keys_looked_up": 1,
                       "type_pairs_one_name_a_prefix_of_the_other": 40, "type_triples_with_related_names": 1000,
-                      "tuple_slots_holding_an_object_shared_with_other_tuples": 1000, "word_sized_struct_pairs_differing_in_two_or_more_bytes": 500}},
-    rule="case = 40 Int, 30 Float, 30 String, 20 plain-struct, 8 sequence and 6 Tree pairs+triples drawn from "
+                      "tuple_slots_holding_an_object_shared_with_other_tuples": 1000, "word_sized_struct_pairs_differing_in_two_or_more_bytes": 500,
+                      "struct_keyed_tree_pairs_with_a_key_size_that_is_not_a_whole_number_of_words": 1000}},
+    rule="case = 40 Int, 30 Float, 30 String, 20 plain-struct, 8 sequence, 6 Tree and 4 struct-keyed Tree pairs+triples drawn from "
          "boundary-biased generators; distinct = hash of the first values of each kind; non-trivial = contains an "
          "Int pair whose difference does not fit in 32 bits",
     assumptions=["NaN excluded (as the statement says)", "no Tuple holds one object twice (open C11 finding); two Tuples may share objects"],
@@ -293,7 +294,7 @@ PROPS["C05"] = dict(
     floors={"quick": {"table_replace_under_collision": 20, "table_states_with_25_or_more_bindings": 20,
                       "cross_kind_assigns": 10, "same_kind_assigns": 10, "copies": 20, "clears": 20,
                       "sort_swap_moves": 10, "concats": 10, "box_container_operations": 200,
-                      "box_containers_deleted": 20, "box_containers_left_to_the_collector": 20, "box_slots_given_what_they_hold": 100, "cases_with_collector_stopped": 5, "tree_updates": 20, "retyping_assigns": 2000, "refused_element_operations": 300, "retyping_assigns_over_two_or_more_elements": 1000}},
+                      "box_containers_deleted": 20, "box_containers_left_to_the_collector": 20, "box_slots_given_what_they_hold": 100, "cases_with_collector_stopped": 5, "tree_updates": 20, "refused_map_sets_of_a_new_key_with_a_refused_value": 200, "retyping_assigns": 2000, "refused_element_operations": 300, "retyping_assigns_over_two_or_more_elements": 1000}},
     rule="case = 8 containers driven through 40-200 (thorough: up to 540) random operations with the ledger and model "
          "oracles after every operation, or one Box container through 40-160 operations; distinct = hash of the "
          "operation list; non-trivial = at least 20 operations",
@@ -347,7 +348,7 @@ PROPS["C12"] = dict(
                "faults (C20) are not in the table.",
     quick=[("asan", 16, 40), ("plain", 8, 40)],
     thorough=[("asan", 16, 1500), ("plain", 16, 4000), ("memcheck", 8, 3, {"budget": 900})],
-    floors={"quick": {"empty_after_resize_0": 20, "failures_handled_inside_an_enclosing_try": 100, "iterations_with_a_refused_get_in_the_body": 20, "empty_after_draining": 20, "distinct_faults_in_table": 300, "sequence_objects_faulted": 100, "map_objects_faulted": 100,
+    floors={"quick": {"empty_after_resize_0": 20, "empty_arrays_with_reserved_room": 5, "failures_handled_inside_an_enclosing_try": 100, "iterations_with_a_refused_get_in_the_body": 20, "empty_after_draining": 20, "distinct_faults_in_table": 300, "sequence_objects_faulted": 100, "map_objects_faulted": 100,
                       "string_objects_faulted": 50, "range_objects_faulted": 50, "scalar_objects_faulted": 1, "fixed_storage_tuples_faulted": 100, "stack_strings_faulted": 100, "absorbable_wrong_types_offered_to_an_empty_map": 50, "plain_struct_containers_faulted": 100}},
     exhaustive=False,
     rule="evaluation = one fault (object kind, operation, invalid argument, size) executed with all oracles; the "
@@ -506,3 +507,16 @@ PROPS["C18"] = dict(
          "non-trivial = the transcript has at least 50 lines",
     assumptions=["the workload takes no error path", "same compiler version and libc for all configurations"],
 )
+
+# floors added with the round-15 seeded changes (about a fifth of what a quick run reaches)
+for _id, _fl in {
+    "C02": {"plain_key_cases_with_keys_sharing_their_first_word": 8},
+    "C04": {"backward_walks_of_non_empty_sequences": 5000},
+    "C06": {"managed_objects_referenced_by_thread_local_storage_only": 20},
+    "C14": {"file_sink_runs_after_a_refused_read": 1000},
+    "C15": {"int_numeric_spec_char_negative": 100, "int_numeric_spec_short_negative": 100,
+            "int_numeric_spec_short_or_char_unsigned_top_half": 200},
+    "C17": {"removals_asked_of_a_registry_that_never_held_anything": 10},
+    "C19": {"runtime_types_with_the_maximum_number_of_instances": 30},
+}.items():
+    PROPS[_id].setdefault("floors", {}).setdefault("quick", {}).update(_fl)
